@@ -21,6 +21,9 @@
                                     d in −2^31..2^31−1 the second half of the per-line pipeline emits, for `mov rax, [base + d]`,
                                     REX/opcode followed by exactly the canonical ModRM/SIB/displacement encoding (AL.Lemmas.MemLoad.mem_bytes,
                                     memBytes_canonical) — which the decoder reads back as that operand (previous item);
+   * `mov_load_text`               — kernel-checked, the same at the TEXT level: `mov rax, [<base>±0x<digits>]` (16 base registers, both
+                                    signs, leading zeros, EVERY d in −2^31..2^31−1, every option byte) through filter, memory scanners,
+                                    tokenizer and lookups (AL.Lemmas.MemText.mem_line) is the canonical encoding of `[base + d]`;
    * C11 `swap_same_address`, `nobase_scale2_same_address`, `nobase_scale1_same_address` — the NASM rewritings
                                     keep the address, for every register valuation.
 -/
@@ -28,9 +31,9 @@ import AL.Properties.Sweep.C02
 import AL.Spec.X86Lemmas
 import AL.Spec.X86MemRoundTrip
 import AL.Properties.C11
-import AL.Lemmas.MemLoad
+import AL.Lemmas.MemText
 namespace AL.Properties.C02
-open AL AL.Impl AL.Gen AL.Spec.X86 AL.Lemmas.MemLoad AL.Lemmas.MovImm
+open AL AL.Impl AL.Gen AL.Spec.X86 AL.Lemmas.MemLoad AL.Lemmas.MovImm AL.Lemmas.MemText
 
 def mkMemEx : Mem := { size := 64, addr32 := false, base := some 13, index := some 12, scale := 8, disp := -129 }
 
@@ -90,5 +93,23 @@ example : (match lexLine (str! "mov rax,[r13]") with | .ok s => s == memRec (str
   decide +kernel
 example : (match lexLine (str! "mov rax,[r9+0x12345678]") with | .ok s => s == memRec (str! "r9") 1161 (dispClass 0x12345678).1 (dispClass 0x12345678).2 | _ => false) = true := by
   decide +kernel
+
+/-- **`mov rax, [base ± d]` as TEXT, every base register, EVERY displacement** (hexadecimal spelling, any number k ≤ 50 of leading zeros):
+    the line is accepted and its code is REX.W(+B) 8B followed by the canonical ModRM / SIB / displacement encoding of `[base + d]` -/
+theorem mov_load_text (n : Nat) (name : Str) (g : Nat) (hp : (n, name, g) ∈ regs64) (sg : Nat) (hsg : sg = 43 ∨ sg = 45) (k v : Nat)
+    (hk : k ≤ 50) (hv : if sg = 45 then v ≤ 2 ^ 31 else v < 2 ^ 31) (opt : Nat) :
+    let d : Int := if sg = 45 then -(v : Int) else (v : Int)
+    (assembleLine opt (str! "mov rax, " ++ (91 :: name ++ sg :: 48 :: 120 :: AL.Lemmas.hexDigs k v ++ [93]))).1 =
+      .ok (.code ([0x48 + (if n ≥ 8 then 1 else 0), 0x8b, (encodeMemRef (memOf n d)).mod * 64 + (encodeMemRef (memOf n d)).rm] ++
+        (encodeMemRef (memOf n d)).sib ++ (encodeMemRef (memOf n d)).disp)) := by
+  intro d
+  have hn : n < 16 := by
+    simp only [regs64, List.mem_cons, Prod.mk.injEq, List.not_mem_nil, or_false] at hp
+    omega
+  have hd1 : -2147483648 ≤ d := by simp only [d]; split at hv <;> simp_all <;> omega
+  have hd2 : d < 2147483648 := by simp only [d]; split at hv <;> simp_all <;> omega
+  rw [mem_line n name g hp sg hsg k v hk hv opt, memBytes_canonical n hn d hd1 hd2]
+
+example : str! "mov rax, " ++ (91 :: str! "rbx" ++ 45 :: 48 :: 120 :: AL.Lemmas.hexDigs 1 16 ++ [93]) = str! "mov rax, [rbx-0x010]" := by decide
 
 end AL.Properties.C02
